@@ -34,13 +34,19 @@ def usedRules : List String := [
   "oC_ParenthesizedExpression", "oC_FunctionInvocation", "oC_FunctionName", "oC_Namespace",
   "oC_Properties", "oC_NodePattern", "oC_RelationshipPattern", "oC_RelationshipDetail", "oC_RelationshipTypes", "oC_RelTypeName",
   "oC_RangeLiteral", "oC_LeftArrowHead", "oC_RightArrowHead", "oC_Dash", "oC_PatternElement", "oC_PatternElementChain",
-  "oC_PatternPart", "oC_AnonymousPatternPart", "oC_ShortestPathPattern", "oC_Pattern"]
+  "oC_PatternPart", "oC_AnonymousPatternPart", "oC_ShortestPathPattern", "oC_Pattern",
+  "oC_Where", "oC_ProjectionBody", "oC_ProjectionItems", "oC_ProjectionItem", "oC_Order", "oC_SortItem", "oC_Skip", "oC_Limit",
+  "oC_ReadingClause", "oC_Match", "oC_Unwind", "oC_Hint", "oC_UpdatingClause", "oC_Create", "oC_Delete", "oC_Remove", "oC_RemoveItem",
+  "oC_Set", "oC_SetItem", "oC_Merge", "oC_MergeAction", "oC_PropertyExpression", "oC_SinglePartQuery", "oC_MultiPartQuery", "oC_With",
+  "oC_Return", "oC_Cypher", "oC_QueryOptions", "oC_Statement", "oC_Query", "oC_RegularQuery", "oC_SingleQuery", "oC_Union"]
 
 def usedToks : List String := [
   "OR", "XOR", "AND", "NOT", "STARTS", "WITH", "ENDS", "CONTAINS", "IN", "IS", "NULL", "COUNT", "DISTINCT", "TRUE", "FALSE",
   "StringLiteral", "DecimalInteger", "RegularDecimalReal", "UnescapedSymbolicName",
   "T__1", "T__2", "T__3", "T__4", "T__5", "T__6", "T__9", "T__10", "T__12", "T__13", "T__14", "T__15", "T__16", "T__17", "T__18",
-  "T__19", "T__20", "T__21", "T__22", "T__23", "T__24", "T__25", "T__26", "T__8", "T__11", "SHORTESTPATH", "ALLSHORTESTPATHS"]
+  "T__19", "T__20", "T__21", "T__22", "T__23", "T__24", "T__25", "T__26", "T__8", "T__11", "SHORTESTPATH", "ALLSHORTESTPATHS",
+  "OPTIONAL", "MATCH", "UNWIND", "AS", "WHERE", "RETURN", "ORDER", "BY", "L_SKIP", "LIMIT", "ASC", "DESC", "DESCENDING", "CREATE", "DELETE",
+  "DETACH", "REMOVE", "SET", "MERGE", "ON", "T__7"]
 
 /-- the tables resolve every used rule name to an index that maps back to the name, every used token name to a type, and
 different token names to different types -/
@@ -370,6 +376,129 @@ def tPart (recT : Expr → Tree) (p : PatternPart) : Tree :=
          else tPatEl N recT p.els]])
 
 def wPart (recW : Expr → Bool) (p : PatternPart) : Bool := !(p.shortest && p.allShortest) && wPatEl recW p.els
+
+/-! ### clauses -/
+
+def whereNode (recT : Expr → Tree) (e : Expr) : Tree := N.nd "oC_Where" [N.lf "WHERE" "where", exprNode N (recT e)]
+
+def projItem (recT : Expr → Tree) (it : Expr × Option String) : Tree :=
+  N.nd "oC_ProjectionItem" (exprNode N (recT it.1) :: (match it.2 with | some a => [N.lf "AS" "as", varNode N a] | none => []))
+
+def sortItem (recT : Expr → Tree) (si : Bool × Expr) : Tree :=
+  N.nd "oC_SortItem" [exprNode N (recT si.2), if si.1 then N.lf "ASC" "asc" else N.lf "DESC" "desc"]
+
+def orderNode (recT : Expr → Tree) (o : List (Bool × Expr)) : Tree :=
+  N.nd "oC_Order" ([N.lf "ORDER" "order", N.lf "BY" "by"] ++ interleave (N.lf "T__6" ",") (o.map (sortItem N recT)))
+
+def tProjBody (recT : Expr → Tree) (p : Projection) : Tree :=
+  N.nd "oC_ProjectionBody"
+    ((if p.distinct then [N.lf "DISTINCT" "distinct"] else []) ++
+     [N.nd "oC_ProjectionItems" (interleave (N.lf "T__6" ",") (p.items.map (projItem N recT)))] ++
+     optList p.order (orderNode N recT) ++
+     optList p.skip (fun e => N.nd "oC_Skip" [N.lf "L_SKIP" "skip", exprNode N (recT e)]) ++
+     optList p.limit (fun e => N.nd "oC_Limit" [N.lf "LIMIT" "limit", exprNode N (recT e)]))
+
+/-- `RETURN *` (the greedy item `(.var "*", none)`) is outside the proved sub-grammar -/
+def notStar (it : Expr × Option String) : Bool :=
+  match it with
+  | (.var s, none) => s != "*"
+  | _ => true
+
+def wProjBody (recW : Expr → Bool) (p : Projection) : Bool :=
+  p.items.all (fun it => recW it.1 && notStar it) &&
+  (match p.order with | some o => o.all (fun si => recW si.2) | none => true) &&
+  (match p.skip with | some e => recW e | none => true) && (match p.limit with | some e => recW e | none => true)
+
+def patternNode (recT : Expr → Tree) (ps : List PatternPart) : Tree :=
+  N.nd "oC_Pattern" (interleave (N.lf "T__6" ",") (ps.map (tPart N recT)))
+
+def tReading (recT : Expr → Tree) : Reading → Tree
+  | .match_ o ps w => N.nd "oC_ReadingClause" [N.nd "oC_Match"
+      ((if o then [N.lf "OPTIONAL" "optional"] else []) ++ [N.lf "MATCH" "match", patternNode N recT ps] ++ optList w (whereNode N recT))]
+  | .unwind e v => N.nd "oC_ReadingClause" [N.nd "oC_Unwind" [N.lf "UNWIND" "unwind", exprNode N (recT e), N.lf "AS" "as", varNode N v]]
+
+def wReading (recW : Expr → Bool) : Reading → Bool
+  | .match_ _ ps w => ps.all (wPart recW) && (match w with | some e => recW e | none => true)
+  | .unwind e _ => recW e
+
+/-- `atom.key` of SET / REMOVE (PropertyExpressionVisitor keeps ONE key: known finding for chains) -/
+def propExprNode (recT : Expr → Tree) (a : Expr) (k : String) : Tree := N.nd "oC_PropertyExpression" [tAtom N recT a, propNode N k]
+
+def setItemNode (recT : Expr → Tree) (it : SetItem) : Tree :=
+  N.nd "oC_SetItem"
+    ((match it.left with | .prop a k => [propExprNode N recT a k] | .var v => [varNode N v] | _ => []) ++
+     (if it.op == "=" then [N.lf "T__1" "="] else if it.op == "+=" then [N.lf "T__7" "+="] else []) ++
+     (match it.right with | .expr e => [exprNode N (recT e)] | .kinds ks => [labelsNode N ks]))
+
+def wSetItem (recW : Expr → Bool) (it : SetItem) : Bool :=
+  (match it.left with | .prop a k => wAtom recW a && simpleKey k | .var _ => true | _ => false) &&
+  (it.op == "=" || it.op == "+=" || it.op == "") &&
+  (match it.right with | .expr e => recW e | .kinds _ => true)
+
+def setNode (recT : Expr → Tree) (items : List SetItem) : Tree :=
+  N.nd "oC_Set" (N.lf "SET" "set" :: interleave (N.lf "T__6" ",") (items.map (setItemNode N recT)))
+
+def removeItemNode (recT : Expr → Tree) : RemoveItem → Tree
+  | .kinds r ks => N.nd "oC_RemoveItem" [varNode N r, labelsNode N ks]
+  | .prop (.prop a k) => N.nd "oC_RemoveItem" [propExprNode N recT a k]
+  | .prop _ => .leaf ""
+
+def wRemoveItem (recW : Expr → Bool) : RemoveItem → Bool
+  | .kinds _ _ => true
+  | .prop (.prop a k) => wAtom recW a && simpleKey k
+  | .prop _ => false
+
+def mergeActionNode (recT : Expr → Tree) (a : Bool × Bool × List SetItem) : Tree :=
+  N.nd "oC_MergeAction" [N.lf "ON" "on", if a.1 then N.lf "CREATE" "create" else N.lf "MATCH" "match", setNode N recT a.2.2]
+
+def tUpdating (recT : Expr → Tree) : Updating → Tree
+  | .create ps => N.nd "oC_UpdatingClause" [N.nd "oC_Create" [N.lf "CREATE" "create", patternNode N recT ps]]
+  | .delete d es => N.nd "oC_UpdatingClause" [N.nd "oC_Delete"
+      ((if d then [N.lf "DETACH" "detach"] else []) ++ [N.lf "DELETE" "delete"] ++
+       interleave (N.lf "T__6" ",") (es.map (fun e => exprNode N (recT e))))]
+  | .remove items => N.nd "oC_UpdatingClause" [N.nd "oC_Remove"
+      (N.lf "REMOVE" "remove" :: interleave (N.lf "T__6" ",") (items.map (removeItemNode N recT)))]
+  | .set items => N.nd "oC_UpdatingClause" [setNode N recT items]
+  | .merge part acts => N.nd "oC_UpdatingClause" [N.nd "oC_Merge"
+      ([N.lf "MERGE" "merge", tPart N recT part] ++ acts.map (mergeActionNode N recT))]
+
+def wUpdating (recW : Expr → Bool) : Updating → Bool
+  | .create ps => ps.all (wPart recW)
+  | .delete _ es => es.all recW
+  | .remove items => items.all (wRemoveItem recW)
+  | .set items => items.all (wSetItem recW)
+  | .merge part acts => wPart recW part && acts.all (fun a => (a.1 != a.2.1) && a.2.2.all (wSetItem recW))
+
+def returnNode (recT : Expr → Tree) (p : Projection) : Tree := N.nd "oC_Return" [N.lf "RETURN" "return", tProjBody N recT p]
+
+def tSinglePart (recT : Expr → Tree) (q : SinglePart) : Tree :=
+  N.nd "oC_SinglePartQuery" (q.reading.map (tReading N recT) ++ q.updating.map (tUpdating N recT) ++ optList q.ret (returnNode N recT))
+
+def wSinglePart (recW : Expr → Bool) (q : SinglePart) : Bool :=
+  q.reading.all (wReading recW) && q.updating.all (wUpdating recW) && (match q.ret with | some p => wProjBody recW p | none => true)
+
+def withNode (recT : Expr → Tree) (p : Part) : Tree :=
+  N.nd "oC_With" ([N.lf "WITH" "with", tProjBody N recT p.withProj] ++ optList p.withWhere (whereNode N recT))
+
+def partKids (recT : Expr → Tree) (p : Part) : List Tree :=
+  p.reading.map (tReading N recT) ++ p.updating.map (tUpdating N recT) ++ [withNode N recT p]
+
+def wPartQ (recW : Expr → Bool) (p : Part) : Bool :=
+  p.reading.all (wReading recW) && p.updating.all (wUpdating recW) && wProjBody recW p.withProj &&
+  (match p.withWhere with | some e => recW e | none => true)
+
+def tBody (recT : Expr → Tree) : Query → Tree
+  | .single q => tSinglePart N recT q
+  | .multi ps l => N.nd "oC_MultiPartQuery" ((ps.map (partKids N recT)).flatten ++ [tSinglePart N recT l])
+
+def wQuery (recW : Expr → Bool) : Query → Bool
+  | .single q => wSinglePart recW q
+  | .multi ps l => ps.all (wPartQ recW) && wSinglePart recW l
+
+/-- the canonical derivation of a whole query: oC_Cypher … oC_SingleQuery around the body -/
+def tQuery (recT : Expr → Tree) (q : Query) : Tree :=
+  N.nd "oC_Cypher" [N.nd "oC_QueryOptions" [],
+    N.nd "oC_Statement" [N.nd "oC_Query" [N.nd "oC_RegularQuery" [N.nd "oC_SingleQuery" [tBody N recT q]]]]]
 
 /-- the canonical tree of an expression nested `f` deep (oC_OrExpression node) -/
 def treeOfExpr : Nat → Expr → Tree
